@@ -12,6 +12,7 @@ impl IDLBitRange {
     #[verifier::external_body] pub fn new() -> (r: IDLBitRange) ensures r@ == Set::<u64>::empty() { unimplemented!() }
     #[verifier::external_body] pub fn is_empty(&self) -> (r: bool) ensures r == (self@ == Set::<u64>::empty()) { unimplemented!() }
     #[verifier::external_body] pub fn below_threshold(&self, t: usize) -> (r: bool) { unimplemented!() }
+    #[verifier::external_body] pub fn len(&self) -> (r: usize) { unimplemented!() }
     #[verifier::external_body] pub fn andnot(self, o: IDLBitRange) -> (r: IDLBitRange) ensures r@ == self@.difference(o@) { unimplemented!() }
 }
 impl Clone for IDLBitRange { #[verifier::external_body] fn clone(&self) -> (r: IDLBitRange) ensures r@ == self@ { unimplemented!() } }
@@ -305,18 +306,37 @@ pub proof fn lemma_neg_term_ok(l: Vec<FilterResolved>, x: Option<NonZeroU8>, an:
 }
 
 // ---- the index layer (IdlArcSqliteTransaction::get_idl): index reads are ASSUMED exact (that is C03) ----
+// utils::trigraph_iter: the 3-, 2- and 1-grapheme windows of the key, as an uninterpreted function of the key text
+pub uninterp spec fn trigraphs(key: Seq<char>) -> Seq<Seq<char>>;
+// R3: `trigraph_iter(&key)` (an `impl Iterator<Item = &str>`) is redirected to the same keys collected in a vector, iterated with .iter()
+#[verifier::external_body] pub fn kvx_trigraphs<'a>(value: &'a str) -> (r: Vec<&'a str>)
+    ensures r@.len() == trigraphs(value@).len(), forall|i: int| 0 <= i < r@.len() ==> (#[trigger] r@[i])@ == trigraphs(value@)[i] { unimplemented!() }
+pub const FILTER_SUBSTR_TEST_THRESHOLD: usize = @@const:FILTER_SUBSTR_TEST_THRESHOLD@@;
 pub trait IdlArcSqliteTransaction {
     spec fn db(&self) -> Db;
+    spec fn has_index(&self, attr: Attribute, itype: IndexType) -> bool;
     fn get_idl(&mut self, attr: &Attribute, itype: IndexType, idx_key: &str) -> (r: Result<Option<IDLBitRange>, OperationError>)
         ensures final(self).db() == old(self).db(),
             r matches Ok(Some(idl)) ==> (itype is Equality ==> forall|v: PartialValue, x: Option<NonZeroU8>| v.eq_key() == idx_key@ ==>
                  idl@ =~= #[trigger] matches(old(self).db(), FilterResolved::Eq(*attr, v, x))),
             r matches Ok(Some(idl)) ==> (itype is Presence ==> forall|x: Option<NonZeroU8>|
-                 idl@ =~= #[trigger] matches(old(self).db(), FilterResolved::Pres(*attr, x)));
+                 idl@ =~= #[trigger] matches(old(self).db(), FilterResolved::Pres(*attr, x))),
+            // substring index: the list of a trigraph key holds (at least) every entry matched by a substring term whose key contains
+            // that trigraph — a superset, never exact
+            r matches Ok(Some(idl)) ==> (itype is SubString ==> forall|v: PartialValue, x: Option<NonZeroU8>| v.sub_key() is Some && trigraphs(v.sub_key()->Some_0).contains(idx_key@) ==>
+                 (#[trigger] matches(old(self).db(), FilterResolved::Cnt(*attr, v, x))).subset_of(idl@)),
+            r matches Ok(Some(idl)) ==> (itype is SubString ==> forall|v: PartialValue, x: Option<NonZeroU8>| v.sub_key() is Some && trigraphs(v.sub_key()->Some_0).contains(idx_key@) ==>
+                 (#[trigger] matches(old(self).db(), FilterResolved::Stw(*attr, v, x))).subset_of(idl@)),
+            r matches Ok(Some(idl)) ==> (itype is SubString ==> forall|v: PartialValue, x: Option<NonZeroU8>| v.sub_key() is Some && trigraphs(v.sub_key()->Some_0).contains(idx_key@) ==>
+                 (#[trigger] matches(old(self).db(), FilterResolved::Enw(*attr, v, x))).subset_of(idl@)),
+            // None means the index table itself is missing (not: the key is absent) — a property of (attribute, index type)
+            r matches Ok(o) ==> (o is None) == !old(self).has_index(*attr, itype),
+            final(self).has_index(*attr, itype) == old(self).has_index(*attr, itype);
 }
 #[verifier::external_body] pub struct IdlLayer { _p: u8 }
 impl IdlArcSqliteTransaction for IdlLayer {
     uninterp spec fn db(&self) -> Db;
+    uninterp spec fn has_index(&self, attr: Attribute, itype: IndexType) -> bool;
     #[verifier::external_body]
     fn get_idl(&mut self, attr: &Attribute, itype: IndexType, idx_key: &str) -> (r: Result<Option<IDLBitRange>, OperationError>) { unimplemented!() }
 }
@@ -337,15 +357,7 @@ impl Backend {
     pub fn get_idlayer(&mut self) -> (r: &mut IdlLayer)
         ensures *r == old(self).idl, final(self).idl == *final(r),
     { &mut self.idl }
-    // filter2idl_sub (substring index, trigraph keys): ASSUMED contract here — a superset of the matches of every substring term
-    // with that key (or all ids), never an exact list
-    #[verifier::external_body]
-    pub fn filter2idl_sub(&mut self, attr: &Attribute, sub_idx_key: String) -> (r: Result<(IdList, FilterPlan), OperationError>)
-        ensures final(self).idl.db() == old(self).idl.db(),
-            r matches Ok(x) ==> (forall|v: PartialValue, i: Option<NonZeroU8>| v.sub_key() == Some(sub_idx_key@) ==> #[trigger] idl_ok(old(self).idl.db(), FilterResolved::Cnt(*attr, v, i), x.0)),
-            r matches Ok(x) ==> (forall|v: PartialValue, i: Option<NonZeroU8>| v.sub_key() == Some(sub_idx_key@) ==> #[trigger] idl_ok(old(self).idl.db(), FilterResolved::Stw(*attr, v, i), x.0)),
-            r matches Ok(x) ==> (forall|v: PartialValue, i: Option<NonZeroU8>| v.sub_key() == Some(sub_idx_key@) ==> #[trigger] idl_ok(old(self).idl.db(), FilterResolved::Enw(*attr, v, i), x.0)),
-    { unimplemented!() }
+//@extract filter2idl_sub
 //@extract filter2idl
 }
 
